@@ -548,6 +548,17 @@ func Catalogue(skew time.Duration) []Defect {
 		{"tkt-sname-joined-component", func(c *Case) { c.TktSName = []string{"HTTP/" + SvcHost} }},
 		{"both-cnames-empty", func(c *Case) { c.CName = []string{}; c.ACName = []string{} }},
 		{"tkt-crealm-other-both", func(c *Case) { c.CRealm = "TRUSTED.REALM"; c.ACRealm = "TRUSTED.REALM" }},
+		// a client name component that contains '@' (enterprise / UPN style): the identity is the sealed name and the sealed realm
+		{"cname-with-at-sign", func(c *Case) { c.CName = []string{"admin@" + Realm}; c.ACName = []string{"admin@" + Realm} }},
+		{"cname-with-at-sign-other-crealm", func(c *Case) {
+			c.CName, c.ACName = []string{"admin@" + Realm}, []string{"admin@" + Realm}
+			c.CRealm, c.ACRealm = "TRUSTED.REALM", "TRUSTED.REALM"
+		}},
+		{"cname-enterprise-type", func(c *Case) {
+			c.CName, c.ACName = []string{"first.last@corp.example"}, []string{"first.last@corp.example"}
+			c.CNameType, c.ACNameType = 10, 10
+		}},
+		{"flag-invalid-without-starttime", func(c *Case) { c.Flags |= 1 << (31 - 7); c.Start = nil }},
 		{"caddr-matching", func(c *Case) { c.CAddr = []krbmsg.HostAddress{AddrMatch} }},
 		{"caddr-other", func(c *Case) { c.CAddr = []krbmsg.HostAddress{AddrOther} }},
 		{"caddr-other-and-matching", func(c *Case) { c.CAddr = []krbmsg.HostAddress{AddrOther, AddrMatch} }},
